@@ -7,6 +7,7 @@ import Voi.Drv.X25519
 import Voi.Drv.Ristretto
 import Voi.Drv.H2C
 import Voi.Drv.ECVRF
+import Voi.Drv.Lattice
 namespace Voi.Drv
 
 structure DrvState where
@@ -27,6 +28,7 @@ def dispatch (st : DrvState) (ws : List String) : DrvState × String :=
   | "H1" :: op :: a => (st, handleH1 op a)
   | "H2" :: op :: a => (st, handleH2 op a)
   | "E1" :: op :: a => (st, handleE1 op a)
+  | "L1" :: op :: a => (st, handleL1 op a)
   | _ => (st, "bad-op")
 
 end Voi.Drv
